@@ -11,6 +11,7 @@ CONSTANTS MaxOps,       \* operations per client
           Faults,       \* subset of {"cancel"}
           MaxFaults,
           Horizon,
+          IdleClock,    \* BOOLEAN
           Names         \* sequence of fresh handle names
 
 NoCfg == [cap |-> Unb, strat |-> "restart", stream |-> FALSE, tmo |-> 0, failto |-> FALSE, owning |-> FALSE,
@@ -83,7 +84,15 @@ A_RestartStarted == \E a \in Actor : RestartStarted(a) /\ Sch
 A_StoppedEnd  == \E a \in Actor : StoppedEnd(a) /\ Sch
 A_Notify      == \E a \in Actor : Notify(a) /\ Sch
 A_Exit        == \E a \in Actor : Exit(a) /\ Sch
-A_Advance     == Advance /\ now < Horizon /\ Sch
+A_TimerStart  == \E i \in DOMAIN tmr : TimerStart(i) /\ Sch
+A_TimerFire   == \E i \in DOMAIN tmr : TimerFire(i) /\ Sch
+A_TimerFlushed == \E i \in DOMAIN tmr : TimerFlushed(i) /\ Sch
+A_TimerEnd    == \E i \in DOMAIN tmr : TimerEnd(i) /\ Sch
+Busy == \/ \E a \in Actor : LoopCanStep(a)
+        \/ \E c \in Client : cli[c].stage # "idle" /\ ClientContEnabled(c)
+        \/ \E i \in DOMAIN tmr : TimerCanStep(i)
+\* IdleClock: the clock moves only when nothing else can ("otherwise idle"); else timers race with tasks
+A_Advance     == Advance /\ MinOf(Pending) <= Horizon /\ (IdleClock => ~Busy) /\ Sch
 A_Cancel      == /\ "cancel" \in Faults /\ nf < MaxFaults
                  /\ \E a \in Actor : Cancel(a)
                  /\ nf' = nf + 1 /\ UNCHANGED <<cur, yl>>
@@ -94,18 +103,27 @@ MCNext ==
   \/ A_StartedBegin \/ A_ScriptStep \/ A_StartedEnd \/ A_Dequeue \/ A_MailboxClosed \/ A_StopTaken
   \/ A_PingHandled \/ A_HandleBegin \/ A_HandleEnd \/ A_TimeoutFire \/ A_RestartTaken \/ A_RestartStopped
   \/ A_RestartRefresh \/ A_RestartStarted \/ A_StoppedEnd \/ A_Notify \/ A_Exit \/ A_Advance \/ A_Cancel
+  \/ A_TimerStart \/ A_TimerFire \/ A_TimerFlushed \/ A_TimerEnd
 
 MCSpec == MCInit /\ [][MCNext]_mcvars
 
 \* terminal states: nothing can move any more
 Quiescent == /\ \A a \in Actor : ~LoopCanStep(a)
              /\ \A c \in Client : cli[c].stage # "idle" => ~ClientContEnabled(c)
+             /\ \A i \in DOMAIN tmr : ~TimerCanStep(i)
 ProgramsDone == \A c \in Client : cli[c].n = MaxOps \/ {x \in DOMAIN hnd : hnd[x].owner = c} = {}
 
 \* C05 WeakInert / C02: in a terminal state nothing hangs on a dead actor, and an actor that
 \* nobody can reach any more has terminated
 Term_WeakInert == Quiescent => \A a \in Used : ~ChanOpen(a) => Terminated(a)
 Term_StopHonoured == Quiescent => \A a \in Used : hst.stopAcc[a] => Terminated(a)
+\* C10 NoLeak: in a terminal state no timer task of a terminated actor is left
+Term_NoTimerLeak == Quiescent => \A i \in DOMAIN tmr : Terminated(tmr[i].a) => tmr[i].st = "ended"
+\* C10 ExactlyK: on an otherwise idle actor exactly k ticks have been delivered and handled after k periods
+Term_ExactlyK == (IdleClock /\ Quiescent) => \A i \in DOMAIN tmr :
+   (tmr[i].kind \in {"interval", "interval_with"} /\ tmr[i].st = "sleeping" /\ act[tmr[i].a].pc = "idle" /\ hst.ab[tmr[i].a] = <<>>) =>
+      /\ tmr[i].k = (now - tmr[i].t0) \div tmr[i].period
+      /\ Cardinality({j \in 1..Len(hst.he[tmr[i].a]) : hst.he[tmr[i].a][j][1] = i}) = tmr[i].k
 
 -----------------------------------------------------------------------------
 (* Libraries of constants for the .cfg files *)
@@ -130,6 +148,15 @@ CfgsStrat2 == {Cfg(1, st, 0, FALSE, FALSE, ss, <<Y>>) : st \in {"restart", "recr
 ScriptsFail == {<<>>, <<Y>>, <<P>>}
 ScriptsSleep == {<<>>, <<Sl(1)>>, <<Sl(3)>>}
 ScriptsSleep2 == {<<>>, <<Sl(1)>>, <<Sl(2)>>, <<Sl(3)>>, <<Y, Sl(2)>>}
+Tm(kind, p, name) == Eff(kind, p, name)
+CfgsTimers == {Cfg(cap, "restart", 0, FALSE, FALSE, <<ss>>, <<>>) : cap \in {Unb, 1},
+                 ss \in {<<Tm("interval", 2, "t1")>>, <<Tm("interval_with", 2, "t1")>>, <<Tm("delayed_send", 2, "t1"), Tm("interval", 3, "t2")>>,
+                          <<Tm("delayed_exec", 1, "t1"), Tm("interval_with", 1, "t2")>>}}
+CfgsTimersQ == {Cfg(1, "restart", 0, FALSE, FALSE, <<ss>>, <<>>) :
+                 ss \in {<<Tm("interval", 2, "t1")>>, <<Tm("delayed_send", 1, "t1"), Tm("interval_with", 2, "t2")>>}}
+CfgsTimers0 == {Cfg(0, "restart", 0, FALSE, FALSE, <<ss>>, <<>>) :
+                 ss \in {<<Tm("interval", 1, "t1"), Tm("interval_with", 2, "t2")>>, <<Tm("interval_with", 1, "t1"), Tm("delayed_send", 2, "t2")>>}}
+ScriptsTimers == {<<>>, <<Eff("ctx_stop", 0, "")>>, <<Eff("ctx_restart", 0, "")>>}
 CfgsTwo == {Cfg(cap, "restart", 0, FALSE, FALSE, <<<<>>>>, <<Y>>) : cap \in {Unb, 1}}
 CfgsUnb == {Cfg(Unb, "restart", 0, FALSE, FALSE, <<<<>>>>, <<Y>>)}
 CfgsB1 == {Cfg(1, "restart", 0, FALSE, FALSE, <<<<>>>>, <<Y>>)}
